@@ -9,6 +9,8 @@ fields of a month-week-day inside `RuleDay.mwd` and has its own records: `jInfo`
 import TzVerif.Generated.Src
 import TzVerif.Model.Rule
 import TzVerif.Proofs.SrcEqCal
+import TzVerif.Proofs.SrcEqRuleSearch
+import TzVerif.Proofs.SrcEqRuleMwd
 
 namespace TzVerif.Proofs.SrcEq
 open TzVerif TzVerif.Model TzVerif.Gen
@@ -22,70 +24,145 @@ def mInfo (c : Src.MonthWeekDayCheckInfos) : MonthWeekDayCheckInfos :=
 def mwdOf (x : Src.MonthWeekDay) : RuleDay := .mwd x.month x.week x.weekDay
 
 theorem julian1_new_eq (n : Int) : (Src.Julian1WithoutLeap.new n).map RuleDay.julian1 = RuleDay.newJulian1 n := by
-  sorry
+  unfold Src.Julian1WithoutLeap.new RuleDay.newJulian1 guardJulian1Max
+  split <;> rfl
 
 theorem julian0_new_eq (n : Int) : (Src.Julian0WithLeap.new n).map RuleDay.julian0 = RuleDay.newJulian0 n := by
-  sorry
+  unfold Src.Julian0WithLeap.new RuleDay.newJulian0 guardJulian0Max
+  by_cases h : n > 365 <;> simp [h, Except.map]
 
 theorem mwd_new_eq (m w d : Int) : (Src.MonthWeekDay.new m w d).map mwdOf = RuleDay.newMwd m w d := by
-  sorry
+  unfold Src.MonthWeekDay.new RuleDay.newMwd
+  split
+  · rfl
+  · split
+    · rfl
+    · by_cases h : d > 6 <;> simp [h, Except.map, mwdOf]
 
 /-- the binary search of the source returns an index as `Int`; the model's `BS.upper` is a `Nat` -/
 theorem julian1_transition_date_eq (n : Int) : Src.Julian1WithoutLeap.transition_date n = julian1TransitionDate n := by
-  sorry
+  unfold Src.Julian1WithoutLeap.transition_date julian1TransitionDate
+  show (bsUp (Src.binary_search_i64 CUMUL_DAYS_IN_MONTHS_NORMAL_YEAR (n - 1)),
+    n - Src.idx CUMUL_DAYS_IN_MONTHS_NORMAL_YEAR (bsUp (Src.binary_search_i64 CUMUL_DAYS_IN_MONTHS_NORMAL_YEAR (n - 1)) - 1)) = _
+  rw [bs_upper_eq]
+  rfl
 
 theorem julian0_transition_date_eq (n : Int) (leap : Bool) : Src.Julian0WithLeap.transition_date n leap = julian0TransitionDate n leap := by
-  sorry
+  unfold Src.Julian0WithLeap.transition_date julian0TransitionDate
+  show (bsUp (Src.binary_search_i64 (if leap then CUMUL_DAYS_IN_MONTHS_LEAP_YEAR else CUMUL_DAYS_IN_MONTHS_NORMAL_YEAR) n),
+    1 + n - Src.idx (if leap then CUMUL_DAYS_IN_MONTHS_LEAP_YEAR else CUMUL_DAYS_IN_MONTHS_NORMAL_YEAR)
+      (bsUp (Src.binary_search_i64 (if leap then CUMUL_DAYS_IN_MONTHS_LEAP_YEAR else CUMUL_DAYS_IN_MONTHS_NORMAL_YEAR) n) - 1)) = _
+  rw [bs_upper_eq]
+  rfl
 
 theorem mwd_transition_date_eq (m w d y : Int) :
     Src.MonthWeekDay.transition_date { month := m, week := w, weekDay := d } y = mwdTransitionDate m w d y := by
-  sorry
+  unfold Src.MonthWeekDay.transition_date mwdTransitionDate
+  simp only [is_leap_year_eq, days_since_unix_epoch_eq, idx_eq_tbl, decide_eq_true_eq]
 
 theorem rule_day_transition_date_eq (r : RuleDay) (y : Int) : Src.RuleDay.transition_date r y = r.transitionDate y := by
-  sorry
+  cases r with
+  | julian1 n => exact julian1_transition_date_eq n
+  | julian0 n =>
+    show Src.Julian0WithLeap.transition_date n (Src.is_leap_year y) = julian0TransitionDate n (isLeapYear y)
+    rw [is_leap_year_eq, julian0_transition_date_eq]
+  | mwd m w d => exact mwd_transition_date_eq m w d y
 
 theorem rule_day_unix_time_eq (r : RuleDay) (y t : Int) : Src.RuleDay.unix_time r y t = r.unixTime y t := by
-  sorry
+  unfold Src.RuleDay.unix_time RuleDay.unixTime
+  simp only [rule_day_transition_date_eq, days_since_unix_epoch_eq]
 
 theorem julian1_check_infos_eq (n t : Int) : jInfo (Src.Julian1WithoutLeap.compute_check_infos n t) = julian1CheckInfos n t := by
-  sorry
+  unfold Src.Julian1WithoutLeap.compute_check_infos julian1CheckInfos jInfo
+  simp only [decide_eq_true_eq]
 
 theorem julian0_check_infos_eq (n t : Int) : jInfo (Src.Julian0WithLeap.compute_check_infos n t) = julian0CheckInfos n t := by
-  sorry
+  rfl
 
 theorem mwd_check_infos_eq (m w d t : Int) :
     mInfo (Src.MonthWeekDay.compute_check_infos { month := m, week := w, weekDay := d } t) = mwdCheckInfos m w t := by
-  sorry
+  unfold Src.MonthWeekDay.compute_check_infos mwdCheckInfos mInfo
+  simp only [idx_eq_tbl, decide_eq_true_eq]
 
 theorem check_two_julian_days_eq (a b : Src.JulianDayCheckInfos) :
     Src.check_two_julian_days a b = checkTwoJulianDays (jInfo a) (jInfo b) := by
-  sorry
+  unfold Src.check_two_julian_days checkTwoJulianDays jInfo
+  by_cases h1 : a.startNormalYearOffset ≤ b.startNormalYearOffset ∧ a.startLeapYearOffset ≤ b.startLeapYearOffset
+  · simp [h1]
+  · by_cases h2 : b.startNormalYearOffset ≤ a.startNormalYearOffset ∧ b.startLeapYearOffset ≤ a.startLeapYearOffset
+    · simp [h1, h2]
+    · simp [h1, h2]
 
 theorem check_month_week_day_and_julian_day_eq (a : Src.MonthWeekDayCheckInfos) (b : Src.JulianDayCheckInfos) :
     Src.check_month_week_day_and_julian_day a b = checkMonthWeekDayAndJulianDay (mInfo a) (jInfo b) := by
-  sorry
+  unfold Src.check_month_week_day_and_julian_day checkMonthWeekDayAndJulianDay mInfo jInfo
+  simp only []
 
 /-- every arm of the source's nested matches, the `unreachable!()` one included (it yields `true` on both sides) -/
 theorem check_two_month_week_days_eq (m1 w1 wd1 t1 m2 w2 wd2 t2 : Int) :
     Src.check_two_month_week_days { month := m1, week := w1, weekDay := wd1 } t1 { month := m2, week := w2, weekDay := wd2 } t2
       = checkTwoMonthWeekDays m1 w1 wd1 t1 m2 w2 wd2 t2 := by
-  sorry
+  rw [src_check_two_month_week_days_unfold]
+  unfold srcSort checkTwoMonthWeekDays
+  simp only [show MONTHS_PER_YEAR = 12 from rfl]
+  by_cases h0 : (m2 - m1) % 12 = 0
+  · by_cases hw : w1 ≤ w2
+    · simp [h0, hw, src_tail_eq, tailOfOpt]; rfl
+    · simp [h0, hw, src_tail_eq, tailOfOpt]; rfl
+  · by_cases h1 : (m2 - m1) % 12 = 1
+    · simp [h1, src_tail_eq, tailOfOpt]; rfl
+    · by_cases h11 : (m2 - m1) % 12 = 11
+      · simp [h11, src_tail_eq, tailOfOpt]; rfl
+      · simp [h0, h1, h11]
+
 
 theorem check_dst_transition_rules_consistency_eq (std dst : LocalTimeType) (ds : RuleDay) (st : Int) (de : RuleDay) (et : Int) :
     Src.check_dst_transition_rules_consistency std dst ds st de et = checkDstTransitionRulesConsistency std dst ds st de et := by
-  sorry
+  unfold Src.check_dst_transition_rules_consistency checkDstTransitionRulesConsistency
+  cases ds <;> cases de <;>
+    simp only [check_two_julian_days_eq, check_month_week_day_and_julian_day_eq, check_two_month_week_days_eq,
+      julian1_check_infos_eq, julian0_check_infos_eq, mwd_check_infos_eq]
+
+theorem natAbs_eq_absI (x : Int) : (Int.natAbs x : Int) = absI x := by
+  unfold absI; split <;> omega
 
 /-- the guard literals -25 / 26 of the source are the regenerated `guard…` constants of the model -/
 theorem alternate_new_eq (std dst : LocalTimeType) (ds : RuleDay) (st : Int) (de : RuleDay) (et : Int) :
     Src.AlternateTime.new std dst ds st de et = AlternateTime.new std dst ds st de et := by
-  sorry
+  unfold Src.AlternateTime.new AlternateTime.new
+  simp only [check_dst_transition_rules_consistency_eq, natAbs_eq_absI,
+    show guardOffsetLowHours = -25 from rfl, show guardOffsetHighHours = 26 from rfl,
+    show guardDstOffsetLowHours = -25 from rfl, show guardDstOffsetHighHours = 26 from rfl]
 
 theorem alternate_find_local_time_type_eq (a : AlternateTime) (u : Int) :
     Src.AlternateTime.find_local_time_type a u = a.findLocalTimeType u := by
-  sorry
+  unfold Src.AlternateTime.find_local_time_type AlternateTime.findLocalTimeType
+  simp only [utc_from_timespec_eq, rule_day_unix_time_eq]
+  cases hc : UtcDateTime.fromTimespec u 0 with
+  | error e => rfl
+  | ok c =>
+    simp only [show i32Min + guardYearMarginLow = -2147483648 + 2 from rfl,
+      show i32Max - guardYearMarginHigh = 2147483647 - 2 from rfl]
+    generalize a.dstStart.unixTime (c.year - 1) (a.dstStartTime - a.std.utOffset) = sPrev
+    generalize a.dstEnd.unixTime (c.year - 1) (a.dstEndTime - a.dst.utOffset) = ePrev
+    generalize a.dstStart.unixTime c.year (a.dstStartTime - a.std.utOffset) = sCur
+    generalize a.dstEnd.unixTime c.year (a.dstEndTime - a.dst.utOffset) = eCur
+    generalize a.dstStart.unixTime (c.year + 1) (a.dstStartTime - a.std.utOffset) = sNext
+    generalize a.dstEnd.unixTime (c.year + 1) (a.dstEndTime - a.dst.utOffset) = eNext
+    unfold alternateIsDst
+    by_cases h1 : sCur < eCur
+    · have h : sCur ≤ eCur := by omega
+      rw [src_cmp_lt h1]; simp only [h, if_true, decide_eq_true_eq]
+    · by_cases h2 : sCur = eCur
+      · have h : sCur ≤ eCur := by omega
+        rw [src_cmp_eq h2]; simp only [h, if_true, decide_eq_true_eq]
+      · have h : ¬ sCur ≤ eCur := by omega
+        rw [src_cmp_gt h1 h2]; simp only [h, if_false, decide_eq_true_eq]
 
 theorem transition_rule_find_local_time_type_eq (r : TransitionRule) (u : Int) :
     Src.TransitionRule.find_local_time_type r u = r.findLocalTimeType u := by
-  sorry
+  cases r with
+  | fixed t => rfl
+  | alternate a => exact alternate_find_local_time_type_eq a u
 
 end TzVerif.Proofs.SrcEq
